@@ -551,3 +551,8 @@ mod tests {
         assert!(e.to_string().contains("https"), "{e}");
     }
 }
+
+// Verification hook (/verif): contract proof harnesses; compiled only by `cargo kani`.
+#[cfg(kani)]
+#[path = "/verif/kani/gravitino.rs"]
+mod verif_kani;
